@@ -46,6 +46,8 @@ def run(ctx: Ctx) -> None:
     e4(ctx, ["deepali.core.image", "deepali.data.image", "deepali.data.flow"])
     from ..tables import t13_lockstep
     t13_lockstep.run_lockstep(ctx)
+    t13_lockstep.run_pyramid(ctx)
+    ctx.floor("T13.pyramid", 8)
     ctx.floor("T13.index-only", 40)
     ctx.floor("T13.ramp", 6)
     ctx.floor("T13.interp-flag", 20)
@@ -82,6 +84,7 @@ def mutants(prog):
         ("resample: grid from the first image", DI, "ImageBatch.resample", "grid = tuple((grid.resample(out_spacing) for grid in self._grid))", "grid = tuple((self._grid[0].resample(out_spacing) for grid in self._grid))", "T13.resample"),
         ("conv: crop handed to the grid in tensor order", DI, "ImageBatch.conv", "crop = tuple(reversed(crop))", "crop = tuple(crop)", "T13.conv"),
         ("grid_sample: constant outside value subtracted in the caller's tensor", "deepali.core.image", "grid_sample", "if out.data_ptr() == data.data_ptr():\n            out = out.sub(padding_value)\n        else:\n            out = out.sub_(padding_value)", "out = out.sub_(padding_value)", "T13.sample"),
+        ("pyramid(spacing): finest level sampled at the new grid's own cube coordinates", "deepali.data.image", "ImageBatch.pyramid", "points = grid_transform_points(points, grids[0], axes, grid, axes, decimals=None)", "points = points", "T13.pyramid"),
     ]
     for name, mod, fn, old, new, expect in specs:
         ov = source_sub(prog, mod, fn, old, new)
